@@ -15,6 +15,12 @@ def run(tier, seed):
         hc.count(("seg", cfg.max_seg))
         if len(hc.v.violations) > 3:
             break
+    for seq in srcprops.c07_reuse_cases(tier, hc.rng):
+        kind, ops, obs = srcprops.reuse_source_case(seq)
+        hc.add_trace(kind, ops, obs, label="consecutive transactions on one handler", oracle=srcprops.oracle_c07)
+        hc.count(("reuse", len(seq)))
+        if len(hc.v.violations) > 3:
+            break
     hc.correspondence(project=hcommon.proj_pdus_exc, theorem="c07_src_stream (correspondence source)")
     return hc.finish("accepted put requests on a fresh source handler driven by empty calls + full drain, no inbound PDU: "
                      "sizes x segment lengths (None = derived) x modes x closure x CRC x id/seq widths x checksum types; "
